@@ -24,6 +24,12 @@ CLAIMED = {
     'C14': ('4 C14', 'TLC model checking that the law-level EqSpec is a type-strict equivalence (MC_Eq: all pairs as states, third value quantified) and of two mechanism models of eq (MC_EqMech) + every TLC-enumerated pair and in_ case realised in Python (S2C) + the full observed eq matrix over ~460 concrete values and their structural copies judged cell by cell by the TLA+ trace specification Trace_Eq (boolean, copies, symmetry, transitivity against every third value, pinned answers)',
             "Equivalence axioms are checked by TLC on every pair/triple of the observed matrix of the real eq; the answers the statement pins (copies equal, container/shape/cell mismatch unequal, agreement with == on plain values) are decided by the specification's Pin; in_ is membership over the observed matrix.",
             'Trusted: TLC, harness/x_eqval.py (realise/project of descriptors). np.datetime64 vs datetime/Timestamp of one instant and equal-cells-other-dtype carriers are left unpinned (named deviations).'),
+    'C20': ('4 C20', 'TLC model checking of the keyed-join laws and of the evaluation state machine Start/Keep/Call/Finish (MC_Perdictable, 15 invariants, mechanism = law) + every TLC-enumerated configuration replayed through perdictable(...) and join(...) with a counting function (S2C, outcome and bag of calls compared with ==) + random larger configurations and chained calls validated by the TLA+ trace specification Trace_Perdictable',
+            'Key set of the join (inner, outer for defaults, union when all default), row values, sort by key, values kept for cached-and-past rows, exactly one call per other row: checked exhaustively on small configurations in TLC and on every replayed / recorded real call.',
+            'Trusted: TLC, the rendering of abstract configurations into dictables in props/c20.py; f is observed by handing the library a recording function. Named deviations EmptyJoin, KeyColumnOrder, ScalarJoin.'),
+    'C04': ('4 C04', 'TLC model checking of the calendar arithmetic (MC_Civil, all 146 097 days) and of the spelling laws Denote/Spell, dialect rule, ymd and overflow (MC_Dates) + TLC-printed spelling classes with expected instants replayed into dt/ymd in every rendering (S2C) + recorded dt/ymd/dt2str outcomes for thousands of days x 45 spelling classes x renderings and the overflow grid validated day by day by the TLA+ trace specification Trace_Dt',
+            'What every spelling form denotes is defined in TLA+ on top of an independently model-checked civil calendar; every recorded call of the real dt is judged against it, including cross-dialect rejection and month/day overflow.',
+            'Trusted: TLC, the rendering of forms into concrete arguments in props/c04.py, run-length packing of identical outcomes. Times of day are sampled. Relative spellings, time zones and 2-digit years are excluded.'),
 }
 PENDING_REASON = 'check not built yet in this round (planned, see DESIGN.md section 4); not claimed until its specification and conformance harness exist'
 
